@@ -1,15 +1,18 @@
 #!/usr/bin/env python3
-"""Regenerate /verif/MANIFEST.json from harness/registry.py."""
-import json, os, sys
-sys.path.insert(0, os.path.dirname(os.path.dirname(os.path.abspath(__file__))))
-from harness.registry import CHECKS
+"""Regenerate /verif/MANIFEST.json from harness/meta/Cxx.json and
+/verif/known_findings.json from known_findings.d/Cxx.json."""
+import glob, json, os
 
+ROOT = os.path.dirname(os.path.dirname(os.path.abspath(__file__)))
 ALL = [f"C{i:02d}" for i in range(1, 21)]
+CHECKS = {}
+for f in sorted(glob.glob(os.path.join(ROOT, "harness/meta/C*.json"))):
+    d = json.load(open(f))
+    if os.path.exists(os.path.join(ROOT, "harness", d["property_id"].lower() + ".py")):
+        CHECKS[d["property_id"]] = d
 NA = {}
-try:
-    from harness.registry import NOT_APPLICABLE as NA
-except ImportError:
-    pass
+if os.path.exists(os.path.join(ROOT, "harness/meta/not_applicable.json")):
+    NA = json.load(open(os.path.join(ROOT, "harness/meta/not_applicable.json")))
 
 m = {
     "version": 1,
@@ -31,7 +34,7 @@ m = {
     ],
     "checks": [],
     "not_applicable": [],
-    "notes": "Repairs of genuine defects are 'fix:' commits in /repo, listed as fixed entries in known_findings.json.",
+    "notes": "Repairs of genuine defects are 'fix:' commits in /repo, listed as fixed entries in known_findings.json (merged from known_findings.d/).",
 }
 for pid in ALL:
     if pid in CHECKS:
@@ -44,7 +47,7 @@ for pid in ALL:
                 "evidence_file": f"/verif/evidence/{pid}.json",
                 "replay_cmd_template": f"./check {pid} --replay {{path}}",
                 "engine": "coq-proof-and-correspondence",
-                "level_claimed": {"category": c["category"], "text": c["level_text"], "design_ref": c["design_ref"]},
+                "level_claimed": {"category": c.get("category", "proof"), "text": c["level_text"], "design_ref": c["design_ref"]},
                 "level_note": c["level_note"],
                 "technique": c["technique"],
             }
@@ -53,6 +56,12 @@ for pid in ALL:
         m["not_applicable"].append(
             {"property_id": pid, "reason": NA.get(pid, "check not built yet in this round (see DESIGN.md section 4); not claimed")}
         )
-with open(os.path.join(os.path.dirname(os.path.dirname(os.path.abspath(__file__))), "MANIFEST.json"), "w") as f:
-    json.dump(m, f, indent=1)
-print("checks:", [c["property_id"] for c in m["checks"]])
+json.dump(m, open(os.path.join(ROOT, "MANIFEST.json"), "w"), indent=1)
+
+merged = {"_doc": "Merged from known_findings.d/Cxx.json by tools/gen_manifest.py. 'findings' with status open suppress exactly the violation whose key matches (key = call site + input class); 'fixed' lines suppress nothing. Never written at run time.", "findings": [], "fixed": []}
+for f in sorted(glob.glob(os.path.join(ROOT, "known_findings.d/C*.json"))):
+    d = json.load(open(f))
+    merged["findings"] += d.get("findings", [])
+    merged["fixed"] += d.get("fixed", [])
+json.dump(merged, open(os.path.join(ROOT, "known_findings.json"), "w"), indent=1)
+print("checks:", [c["property_id"] for c in m["checks"]], "open findings:", len(merged["findings"]), "fixed:", len(merged["fixed"]))
